@@ -47,7 +47,7 @@ RULE = (
     "1) dtype table: every (dtype, scalar kind) against jax.numpy.result_type (exhaustive). 2) class-pair table: every "
     "ordered pair of the 9 leaf classes x {+,-,@,call,*,/} x {real,complex}^2 (+ mismatched shapes), every class x 13 "
     "scalar kinds x {c*A,A*c,A/c,c/A,A+c,A-c,c+A,c-A}, every class x {neg,T,H,conj,gram} (exhaustive). 3) random trees "
-    "of depth <=4 (quick) / <=7 (thorough) over leaves of size 1-6 (plain, 2-d, block shapes; broadcasting diagonals; "
+    "(200 quick / 5000 thorough) of depth <=4 (quick) / <=7 (thorough) over leaves of size 1-6 (plain, 2-d, block shapes; broadcasting diagonals; "
     "f32/f64/c64/c128), ~6% ill-typed nodes. A case is non-trivial when it has at least one operation node; distinct "
     "by its skeleton (structure, classes, shapes, dtypes, scalar kinds)."
 )
@@ -197,9 +197,9 @@ def correspond(ctx, model):
             if bad >= 8:
                 break
     # stacks with a Lean model (vstack / dstack of random expressions)
-    S.model_tie(ctx, env, model, ctx.n(40, 500))
+    S.model_tie(ctx, env, model, ctx.n(40, 1200))
     # random trees
-    n = ctx.n(200, 2000)
+    n = ctx.n(200, 5000)
     dmax = ctx.n(4, 7)
     for i in range(n):
         dt_of = T.dtype_regime(ctx.rng)
@@ -224,7 +224,7 @@ def search(ctx, model, why):
     """thorough tier: the property oracle on the implementation alone over fresh random trees"""
     env = G.Env()
     orc = G.oracle(env)
-    for i in range(ctx.n(0, 600)):
+    for i in range(ctx.n(0, 1500)):
         dt_of = T.dtype_regime(ctx.rng)
         insh = T.shape(ctx.rng)
         outsh = insh if ctx.rng.random() < 0.5 else T.shape(ctx.rng)
